@@ -34,7 +34,7 @@ patch = os.path.join(dst, "patch.diff")
 demo = os.path.join(dst, "demo.py")
 wt = tempfile.mkdtemp(prefix="djc-seedverify-")
 os.rmdir(wt)
-meta = {"property": a.prop.rstrip("bcd"), "source": "independent sub-agent given only the property text and a scratch worktree",
+meta = {"property": a.prop.rstrip("bcdef"), "source": "independent sub-agent given only the property text and a scratch worktree",
         "repo_head": subprocess.run(["git", "-C", "/repo", "rev-parse", "HEAD"], capture_output=True, text=True).stdout.strip()}
 
 
@@ -69,7 +69,7 @@ meta["confirmed"] = bool(meta.get("patch_applies") and meta.get("demo_without_ch
                          and meta.get("demo_with_change_exit") not in (0, None)
                          and (a.skip_suite or meta.get("suite_passes_with_change")))
 results = {}
-for chk in (a.checks.split(",") if a.checks else [a.prop.rstrip("bcd")]):
+for chk in (a.checks.split(",") if a.checks else [a.prop.rstrip("bcdef")]):
     cmd = ["/venv/bin/python", "-m", "checks.audit", patch, chk, "--tier", a.tier]
     if a.runs:
         cmd += ["--runs", a.runs]
